@@ -3,11 +3,14 @@
  * A select() gate (fds GATE_OUT/GATE_IN from the environment) lets the test hold the module at its
  * first select() so that "server closed before the first write" is deterministic. */
 #define _GNU_SOURCE
+#include <errno.h>
 #include <stdio.h>
 #include <stdlib.h>
 #include <string.h>
 #include <unistd.h>
 #include <sys/select.h>
+#include <signal.h>
+#include <sys/time.h>
 #include <sys/socket.h>
 #include <sys/types.h>
 #include <sys/syscall.h>
@@ -65,6 +68,9 @@ int pam_prompt(pam_handle_t *pamh, int style, char **response, const char *fmt, 
   return PAM_SUCCESS;
 }
 
+static volatile long ticks, tick_limit;
+static void on_tick(int sig) { (void)sig; if (++ticks > tick_limit) _exit(97); /* self-destruct after two minutes of ticking */ }
+
 /* interposes libc's send(): with PAMDRV_SEND_MAX=n every call transfers at most n bytes (a short write, as a signal or a
  * nearly full socket buffer produces); the module must carry on from where the kernel stopped. */
 ssize_t send(int fd, const void *buf, size_t len, int flags) {
@@ -87,6 +93,15 @@ int select(int nfds, fd_set *r, fd_set *w, fd_set *e, struct timeval *tv) {
 int main(int argc, char **argv) {
   if (argc < 2) return 64;
   alarm(300); /* never outlive the harness: a module that loops for ever must not keep a core busy after the run */
+  if (getenv("PAMDRV_SIGNAL_MS")) {
+    /* the host application receives signals while the module runs (a timer ticking every n ms, handler installed without
+     * SA_RESTART): interrupted system calls must not un-bound the module's timeout */
+    struct sigaction sa; memset(&sa, 0, sizeof(sa)); sa.sa_handler = on_tick; sigaction(SIGALRM, &sa, NULL);
+    long ms = atol(getenv("PAMDRV_SIGNAL_MS")); if (ms < 1) ms = 1;
+    tick_limit = 120000 / ms;
+    struct itimerval itv; itv.it_interval.tv_sec = ms / 1000; itv.it_interval.tv_usec = (ms % 1000) * 1000; itv.it_value = itv.it_interval;
+    setitimer(ITIMER_REAL, &itv, NULL);
+  }
   FILE *f = fopen(argv[1], "r");
   if (!f) return 65;
   char line[20000];
@@ -111,7 +126,10 @@ int main(int argc, char **argv) {
   fclose(f);
   if (getenv("PAMDRV_GATE_OUT")) { gate_out = atoi(getenv("PAMDRV_GATE_OUT")); gate_in = atoi(getenv("PAMDRV_GATE_IN")); }
   struct pam_handle h;
+  /* errno belongs to the host application: whatever an earlier, unrelated call left there is what the module starts with */
+  if (getenv("PAMDRV_ERRNO")) errno = atoi(getenv("PAMDRV_ERRNO"));
   int rc = pam_sm_authenticate(&h, flags, margc, margv);
+  { struct itimerval off; memset(&off, 0, sizeof(off)); setitimer(ITIMER_REAL, &off, NULL); } /* no ticks while the sanitizers wind up */
   printf("RC=%d SETITEM=%d PROMPTS=%d\n", rc, n_setitem, n_prompts);
   fflush(stdout);
   free(c_user); free(c_stackpw); free(c_convpw); free(set_item_copy);
